@@ -5,13 +5,16 @@ import (
 	"flag"
 	"fmt"
 	"os"
+	"sort"
 	"strings"
+	"time"
 )
 
 // harness <suite> -seed N -tier quick|thorough -out ops.txt -stats stats.json
-//         [-replay file]   re-execute the case(s) in file (op lines) instead of generating
-//         [-shrink file]   ddmin the ops of the (single) case in file while the oracle
-//                          keeps failing with -kind; result written to -out
+//
+//	[-replay file]   re-execute the case(s) in file (op lines) instead of generating
+//	[-shrink file]   ddmin the ops of the (single) case in file while the oracle
+//	                 keeps failing with -kind; result written to -out
 func main() {
 	if len(os.Args) < 2 {
 		fmt.Fprintln(os.Stderr, "usage: harness <suite> [flags]")
@@ -26,6 +29,8 @@ func main() {
 	replay := fs.String("replay", "", "replay ops from this file instead of generating")
 	shrink := fs.String("shrink", "", "shrink the failing case in this file")
 	kind := fs.String("kind", "", "failure kind to preserve while shrinking")
+	prop := fs.String("prop", "", "property of the failure to preserve while shrinking")
+	feat := fs.String("feat", "", "features (k=v,k=v) of the failure to preserve while shrinking")
 	shard := fs.Int("shard", 0, "shard index")
 	nshards := fs.Int("nshards", 1, "number of shards")
 	fs.Parse(os.Args[2:])
@@ -44,7 +49,7 @@ func main() {
 			os.Exit(2)
 		}
 		c := cases[len(cases)-1]
-		c.ops = shrinkOps(def, c, *kind)
+		c.ops = shrinkOps(def, c, *kind, *prop, *feat)
 		o := NewOut(*out, suite, *seed, *tier)
 		runCase(o, def, c)
 		o.Close(*stats)
@@ -147,13 +152,13 @@ func readCases(path string) []genCase {
 }
 
 // shrinkOps: ddmin over op lines, keeping the oracle failure of the given kind.
-func shrinkOps(def SuiteDef, c genCase, kind string) []string {
+func shrinkOps(def SuiteDef, c genCase, kind, prop, feat string) []string {
 	fails := func(ops []string) bool {
 		o := NewOut(os.DevNull, "shrink", 0, "quick")
 		runCase(o, def, genCase{header: c.header, ops: ops})
 		o.w.Flush()
 		for _, f := range o.Failures {
-			if kind == "" || f.Kind == kind {
+			if (kind == "" || f.Kind == kind) && (prop == "" || f.Property == prop) && (feat == "" || featString(f.Features) == feat) {
 				return true
 			}
 		}
@@ -163,8 +168,9 @@ func shrinkOps(def SuiteDef, c genCase, kind string) []string {
 	if !fails(ops) {
 		return ops
 	}
+	deadline := time.Now().Add(30 * time.Second)
 	n := 2
-	for len(ops) >= 2 {
+	for len(ops) >= 2 && time.Now().Before(deadline) {
 		chunk := (len(ops) + n - 1) / n
 		reduced := false
 		for i := 0; i < len(ops); i += chunk {
@@ -196,3 +202,16 @@ type Config struct {
 func (c Config) Thorough() bool { return c.Tier == "thorough" }
 
 var suites = map[string]SuiteDef{}
+
+func featString(m map[string]string) string {
+	ks := make([]string, 0, len(m))
+	for k := range m {
+		ks = append(ks, k)
+	}
+	sort.Strings(ks)
+	parts := make([]string, len(ks))
+	for i, k := range ks {
+		parts[i] = k + "=" + m[k]
+	}
+	return strings.Join(parts, ",")
+}
